@@ -482,7 +482,11 @@ pub(crate) fn on_retract_response(
     } = core.split_mut();
     let mut to_workers: Map<WorkerId, Vec<(TaskId, ResourceVariantId)>> = Map::new();
     for task_id in task_ids {
-        let task = task_map.get_task_mut(*task_id);
+        // The task may have been canceled while the response was on its way
+        let Some(task) = task_map.find_task_mut(*task_id) else {
+            log::debug!("Retracted task {task_id} is not here");
+            continue;
+        };
         if !matches!(task.state, TaskRuntimeState::Retracting { worker_id: w_id } if worker_id == w_id)
         {
             log::debug!("Retracted task {task_id} is in invalid state");
